@@ -396,7 +396,9 @@ def run_conc(c, limit=4000):
     while stack:
         prefix = stack.pop()
         out, trace = _conc_once(c, prefix)
-        outcomes.add(out)
+        # the schedule (client picked at every scheduling point) and what it led to: compared schedule by
+        # schedule with the small-step model Model/SharedSteps.v
+        outcomes.add("".join(str(x[0]) for x in trace) + ":" + out)
         n += 1
         if n > limit:
             raise RuntimeError("too many schedules")
@@ -543,8 +545,10 @@ def conc_cases(rng, quick):
             return ["P", k, v, d if hyb else 0.0]
 
         setups = [[], [put(0, 1)], [put(0, 1), put(1, 2, 0.0)], [put(0, 1), ["G", 0], put(1, 2)]]
-        singles_a = [[put(k, 10 + k, 0.0)] for k in range(3)] + [[["G", k]] for k in range(2)]
-        singles_b = [[put(k, 20 + k, 2.0)] for k in range(3)] + [[["G", k]] for k in range(2)]
+        singles_a = [[put(k, 10 + k, 0.0)] for k in range(3)] + [[["G", k]] for k in range(2)] + [[["X"]]]
+        # the lock-free calls `in` / `len` of client b may see the managed dict in the middle of client a's operation
+        singles_b = ([[put(k, 20 + k, 2.0)] for k in range(3)] + [[["G", k]] for k in range(2)]
+                     + [[["L"]], [["M", 0]], [["M", 2]], [["L"], ["M", 1]], [["X"]]])
         one = [{"kind": "conc", "cfg": cfg, "keys": 3, "setup": s, "a": a, "b": b}
                for s in setups for a in singles_a for b in singles_b]
         doubles = [[put(2, 11), ["G", 0]], [["G", 0], put(2, 12)], [["G", 1], ["G", 0]], [put(0, 13), put(2, 14)],
@@ -553,8 +557,8 @@ def conc_cases(rng, quick):
                 "b": [[o[0], o[1], o[2] + 10, o[3]] if o[0] == "P" else o for o in b]}
                for s in setups[1:] for a in doubles for b in doubles]
         # every schedule of a case costs one pair of threads: the quick tier samples the pairs
-        cases += rng.sample(one, 8) if quick else one
-        cases += rng.sample(two, 1 if quick else 15)
+        cases += rng.sample(one, 8 if quick else 75)
+        cases += rng.sample(two, 1 if quick else 10)
     return cases
 
 
